@@ -50,10 +50,9 @@ impl RaftIndexInnerManager {
                 mark_remove: false,
             });
             */
-            let mut buf = Vec::new();
+            // 8-byte last-applied header, then the catalogue message
+            let mut buf = id_to_bin(0);
             let mut writer = Writer::new(&mut buf);
-            let header_buf = id_to_bin(0);
-            writer.write_bytes(&header_buf)?;
             writer.write_message(&index)?;
             file.seek(std::io::SeekFrom::Start(0)).await?;
             file.write_all(&buf).await?;
